@@ -12,8 +12,9 @@ ASSUMPTIONS = [
     "message bit length below 2^64 (SHA-256 streaming theorem)",
     "CBC round-trip theorem takes 'the block decryption inverts the block encryption' as a hypothesis",
 ]
-# lean/RelicVerif/Gen/AesTables.lean (the ten lookup tables and rcon of src/bc/rijndael-alg-fst.c) is regenerated from the C text on every run
-GENERATED = ["aes"]
+# lean/RelicVerif/Gen/AesTables.lean (the ten lookup tables and rcon of src/bc/rijndael-alg-fst.c) and Gen/MdConsts.lean (K / H0 / IV / sigma
+# of the hash implementations) are regenerated from the C text on every run
+GENERATED = ["aes", "md"]
 RULE = ("all message lengths 0..300 (every residue mod 64 and mod 128), key lengths 0..200, output lengths 0..3*hLen+5 and the 255*hLen "
         "boundary, AES key sizes 16/24/32 (+ invalid), plaintext lengths 0..80, every single-byte corruption of the last ciphertext block; "
         "non-trivial = distinct line with a non-error result")
